@@ -145,19 +145,30 @@ def spanning_hit_gene(ctx: Context, where: Dict[str, Any]) -> bool:
 
 
 def window_edge(ctx: Context, where: Dict[str, Any]) -> bool:
-    """ circular; the rule's search window around a gene with hits crosses the origin (without being
-        the whole record) and another gene with hits overlaps that window without lying inside it
-        (for two-part windows only fully contained genes are looked at) """
+    """ circular; the rule's search window around a gene with hits crosses the origin (two parts) and
+        another gene with hits shares a base with that window without each of its parts lying inside
+        one part of the window (for two-part windows only such fully contained genes are looked at;
+        this includes a gene lying across the seam of a two-part window that covers the whole ring) """
     rule = ctx.rule(where)
     if not rule or not ctx.circular or not needs_neighbours(ctx, where):
         return False
     hit = ctx.hit_genes()
+    length = ctx.length
     for i in hit:
         if not ctx.wraps(i, rule["cut"]):
             continue
-        inside = model.span_bases(ctx.window(i, rule["cut"])[:2], ctx.length)
+        start, size, _ = ctx.window(i, rule["cut"])
+        upper = frozenset(range(start, length))
+        lower = frozenset(range(0, start + size - length))
         for j in hit:
-            if j != i and ctx.geo.bases[j] & inside and not ctx.geo.bases[j] <= inside:
+            if j == i or not ctx.geo.bases[j] & (upper | lower):
+                continue
+            gene = ctx.case["genes"][j]
+            if gene[1] > length:
+                parts = [frozenset(range(gene[0], length)), frozenset(range(0, gene[1] - length))]
+            else:
+                parts = [frozenset(range(gene[0], gene[1]))]
+            if not all(part <= upper or part <= lower for part in parts):
                 return True
     return False
 
@@ -172,9 +183,10 @@ def ring_closes(ctx: Context, where: Dict[str, Any]) -> bool:
 
 
 def merged_ring_closes(ctx: Context, where: Dict[str, Any]) -> bool:
-    """ circular; some rule has a chain with two genes that both span the origin and whose span with the
-        neighbourhood reaches around the ring (their two protoclusters get merged over the origin and
-        the merged neighbourhood laps itself into three parts) """
+    """ circular; some rule has a chain of several genes, one of them spanning the origin, whose span with
+        the neighbourhood reaches around the ring (the protocluster of the origin-spanning gene gets
+        merged with the others by merge_over_origin and the merged neighbourhood laps itself into
+        three parts) """
     if not ctx.circular:
         return False
     for rule in ctx.case["rules"]:
@@ -182,7 +194,7 @@ def merged_ring_closes(ctx: Context, where: Dict[str, Any]) -> bool:
         extra = [i for i in ctx.hit_genes() if rule.get("ext") and model.extender_ok(rule["ext"], ctx.case["hits"][i])]
         for group in chk.chains(anchors, rule["cut"], ctx.geo):
             members = list(group) + [i for i in extra if i not in group]
-            if sum(1 for i in members if ctx.spanning(i)) < 2:
+            if len(members) < 2 or not any(ctx.spanning(i) for i in members):
                 continue
             for start, size in ctx.geo.spans(group):
                 if start + size > ctx.length and size + 2 * rule["nb"] >= ctx.length:
@@ -195,7 +207,7 @@ def _own(where: Dict[str, Any]) -> List[int]:
 
 
 def _all_groups(where: Dict[str, Any]) -> List[List[int]]:
-    groups = list(where.get("groups") or [])
+    groups = list(where.get("groups") or []) + list(where.get("reach") or [])
     for others in (where.get("sup_groups") or {}).values():
         groups.extend(others)
     return groups
@@ -215,6 +227,63 @@ def spanning_member_own(ctx: Context, where: Dict[str, Any]) -> bool:
 
 def spanning_member_any(ctx: Context, where: Dict[str, Any]) -> bool:
     return any(ctx.spanning_member(group) for group in _all_groups(where))
+
+
+def some_chain_wrap_prone(ctx: Context, _where: Dict[str, Any]) -> bool:
+    """ circular; some rule has a chain (with its admissible extender genes) that is wrap-prone """
+    if not ctx.circular:
+        return False
+    for rule in ctx.case["rules"]:
+        anchors = chk.expected_anchors(ctx.case, rule, ctx.geo)
+        for group in chk.chains(anchors, rule["cut"], ctx.geo):
+            members = list(group)
+            if rule.get("ext"):
+                _, may = chk.extender_closures(ctx.case, rule, group, ctx.geo)
+                members += sorted(may)
+            if ctx.wrap_prone(members):
+                return True
+    return False
+
+
+def half_ring_with_extenders(ctx: Context, where: Dict[str, Any]) -> bool:
+    """ circular; the chain together with its admissible extender genes occupies at least half of the
+        ring (while extender genes are added one by one the growing core crosses the origin and sides
+        are picked by distance to the record ends) """
+    members = _own(where)
+    if not ctx.circular or not members:
+        return False
+    return ctx.length - ctx.geo.spans(members)[0][1] <= ctx.length // 2
+
+
+def superior_chain_over_origin(ctx: Context, where: Dict[str, Any]) -> bool:
+    """ circular; a chain of several genes of one of the rule's SUPERIORS crosses the origin (its pieces are
+        only joined by merge_over_origin, after remove_redundant_protoclusters has compared cores) """
+    for others in (where.get("sup_groups") or {}).values():
+        for other in others:
+            if len(other) >= 2 and ctx.crossing_spans(other):
+                return True
+    return False
+
+
+def merged_cores_with_extenders(ctx: Context, _where: Dict[str, Any]) -> bool:
+    """ circular; a rule with EXTENDERS has two chains whose spans (with admissible extender genes) overlap
+        or come within the cutoff of each other, so that merge_over_origin merges their protoclusters
+        although the merged core does not cross the origin """
+    if not ctx.circular:
+        return False
+    for rule in ctx.case["rules"]:
+        if not rule.get("ext"):
+            continue
+        anchors = chk.expected_anchors(ctx.case, rule, ctx.geo)
+        reach = []
+        for group in chk.chains(anchors, rule["cut"], ctx.geo):
+            _, may = chk.extender_closures(ctx.case, rule, group, ctx.geo)
+            reach.append(ctx.geo.union(list(group) + sorted(may)))
+        for i in range(len(reach)):
+            for j in range(i + 1, len(reach)):
+                if model.set_distance(reach[i], reach[j], ctx.length, True) <= rule["cut"]:
+                    return True
+    return False
 
 
 def superior_overlaps(ctx: Context, where: Dict[str, Any]) -> bool:
@@ -248,6 +317,7 @@ Mechanism = Tuple[str, str, Callable[[Context, Dict[str, Any]], bool]]
 WRAP_ANY: Mechanism = ("wrap-prone", "C03-F6", wrap_prone_any)
 SPAN_ANY: Mechanism = ("origin-spanning-gene-in-chain", "C03-F9", spanning_member_any)
 SUP_OVER: Mechanism = ("superior-overlaps", "C03-F7", superior_overlaps)
+SUP_LATE: Mechanism = ("superior-chain-over-origin", "C03-F10", superior_chain_over_origin)
 
 MECHANISMS: Dict[str, List[Mechanism]] = {
     "anchoring-genes": [
@@ -260,14 +330,17 @@ MECHANISMS: Dict[str, List[Mechanism]] = {
     "no-unexpected-exception": [
         ("gene-at-0-with-origin-spanning-gene", "C03-F8", zero_start_with_spanning_gene),
         ("merged-ring-closes", "C03-F5", merged_ring_closes),
+        ("wrap-prone", "C03-F6", some_chain_wrap_prone),
+        ("merged-cores-with-extenders", "C03-F11", merged_cores_with_extenders),
     ],
     "core-smallest-span": [("wrap-prone", "C03-F6", wrap_prone_own)],
     "extenders-core": [("origin-spanning-gene-in-chain", "C03-F3", spanning_member_own),
-                       ("wrap-prone", "C03-F6", wrap_prone_own)],
-    "chains-maximal": [WRAP_ANY, SPAN_ANY, SUP_OVER],
-    "one-protocluster-per-chain": [WRAP_ANY, SPAN_ANY],
-    "kept-unless-superior-covers": [WRAP_ANY, SPAN_ANY, SUP_OVER],
-    "dropped-when-superior-covers": [WRAP_ANY],
+                       ("wrap-prone", "C03-F6", wrap_prone_own),
+                       ("half-ring", "C03-F6", half_ring_with_extenders)],
+    "chains-maximal": [WRAP_ANY, SPAN_ANY, SUP_OVER, SUP_LATE],
+    "one-protocluster-per-chain": [WRAP_ANY, SPAN_ANY, SUP_LATE],
+    "kept-unless-superior-covers": [WRAP_ANY, SPAN_ANY, SUP_OVER, SUP_LATE],
+    "dropped-when-superior-covers": [WRAP_ANY, SUP_LATE],
 }
 
 
@@ -314,6 +387,8 @@ CASE_PRIORITY = (
     "wrap-prone",
     "ring-closes",
     "superior-overlaps-over-origin",
+    "superior-chain-over-origin",
+    "merged-cores-with-extenders",
 )
 
 
@@ -372,4 +447,12 @@ def case_mechanisms(case: Dict[str, Any]) -> List[str]:
                         theirs = [model.span_bases(v, ctx.length) for v in ctx.geo.spans(other)]
                         if any(a & b and not a <= b for a in own for b in theirs):
                             found.add("superior-overlaps-over-origin")
+    if ctx.circular:
+        for rule in case["rules"]:
+            for sup in rule.get("sup") or []:
+                if sup in by_name and chains_of[rule["n"]] and any(
+                        len(other) >= 2 and ctx.crossing_spans(other) for other in chains_of[sup]):
+                    found.add("superior-chain-over-origin")
+        if merged_cores_with_extenders(ctx, {}):
+            found.add("merged-cores-with-extenders")
     return [name for name in CASE_PRIORITY if name in found]
